@@ -5,6 +5,7 @@ package main
 // send and at the normal return of a procedure.
 
 import (
+	"time"
 	"fmt"
 	"go/token"
 	"go/types"
@@ -147,6 +148,9 @@ func (x *Exec) snapSlice(v Value) (s SliceV, ok bool) {
 func (x *Exec) probeValid(c *Term) bool {
 	if x.dry > 0 || x.st == nil {
 		return false
+	}
+	if !x.deadline.IsZero() && time.Now().After(x.deadline) {
+		unsup("execution budget of the target exceeded (%d s)", targetBudgetSecs)
 	}
 	hyps := relevantHyps(x.assumes, x.st.pc)
 	asserts := append(append([]*Term{}, hyps...), x.st.pc, Not(c))
